@@ -37,7 +37,7 @@ fn sym(s: &str) -> Tok {
 }
 
 const NUMS: &[&str] = &[
-    "1", "2", "3", "10", "3.5", ".5", "1.", "1e3", "2.5e-3", "1E2", "1_000", "1_0.2_5", "0x1F", "0xff", "0b101", "0o17", "NaN", "inf", "007", "6.02e+23",
+    "1", "2", "3", "10", "3.5", ".5", "1.", "1e3", "2.5e-3", "1E2", ".5e-3", ".25E+2", ".5e3", "5.e-1", "1_000", "1_0.2_5", "0x1F", "0xff", "0b101", "0o17", "NaN", "inf", "007", "6.02e+23",
 ];
 const IDENTS: &[&str] = &["x", "y", "foo", "bar", "m", "km", "alpha", "f", "g", "sin", "a_b", "x2"];
 const STRS: &[&str] = &["abc", "hello world", "x", "1+1"];
